@@ -86,11 +86,13 @@ Qed.
 Print Assumptions C16_tsim_means_same_pixels.
 
 (* every isomorphism of the adjacency graph on the processed pixels commutes with the whole
-   construction loop, for every processing order (criteria that do not look at positions) *)
+   construction loop, for every processing order, when the criteria of the two runs agree on
+   corresponding own lists of processed pixels (criteria that do not look at positions do;
+   contains_seeds does with the seeds mapped along, see below) *)
 Theorem C16_graph_isomorphism :
-  forall (g : Z -> Z) indep indep',
-    (forall o o' v, Permutation (map (gpv g) o) o' -> indep' o' v = indep o v) ->
-  forall (dom : Z -> Prop) adj adj',
+  forall (g : Z -> Z) (dom : Z -> Prop) indep indep',
+    (forall o o' v, own_in_dom dom o -> Permutation (map (gpv g) o) o' -> indep' o' v = indep o v) ->
+  forall adj adj',
     (forall p q, dom p -> dom q -> (In (g q) (adj' (g p)) <-> In q (adj p))) ->
   forall order, (forall pv, In pv order -> dom (fst pv)) ->
     rsim g (run adj indep order) (run adj' indep' (map (gpv g) order)).
@@ -103,6 +105,18 @@ Theorem C16_builtin_criteria_ignore_positions :
     Permutation (map (gpv g) o) o' -> indep_of cs o' v = indep_of cs o v.
 Proof. exact builtin_indep_rel. Qed.
 Print Assumptions C16_builtin_criteria_ignore_positions.
+
+(* contains_seeds with the seed positions mapped along (g injective on the processed pixels and
+   the seeds) answers alike on corresponding own lists *)
+Theorem C16_seeds_mapped_along :
+  forall g (dom : Z -> Prop) cs o o' v,
+    (forall a b, dom a -> dom b -> g a = g b -> a = b) ->
+    (forall l, In (Seeds l) cs -> forall s, In s l -> dom s) ->
+    (forall pv, In pv o -> dom (fst pv)) ->
+    Permutation (map (gpv g) o) o' ->
+    indep_of (map (map_crit g) cs) o' v = indep_of cs o v.
+Proof. exact mapped_indep_rel. Qed.
+Print Assumptions C16_seeds_mapped_along.
 
 (* Dendrogram.compute on two grids related by an isomorphism g, the second array carrying
    the same above-threshold values at the mapped pixels and nothing else above the threshold
@@ -117,6 +131,19 @@ Theorem C16_relabelled_hierarchy :
     rsim g (compute shape (AdjGrid per) vals minv cs) (compute shape' (AdjGrid per') vals' minv cs).
 Proof. exact compute_relabelled. Qed.
 Print Assumptions C16_relabelled_hierarchy.
+
+(* ... and with contains_seeds among the criteria, the seeds mapped along with the pixels *)
+Theorem C16_relabelled_hierarchy_with_seeds :
+  forall shape shape' per per' g, giso shape per shape' per' g ->
+  forall vals vals' minv cs,
+    (forall pv, In pv (kept vals minv) -> inrange shape (fst pv)) ->
+    carried g (kept vals minv) (kept vals' minv) ->
+    (forall l, In (Seeds l) cs -> forall s, In s l -> inrange shape s) ->
+    NoDup (map snd (kept vals minv)) ->
+    rsim g (compute shape (AdjGrid per) vals minv cs)
+           (compute shape' (AdjGrid per') vals' minv (map (map_crit g) cs)).
+Proof. exact compute_relabelled_seeds. Qed.
+Print Assumptions C16_relabelled_hierarchy_with_seeds.
 
 (* arbitrary values (ties): the parentless regions still correspond *)
 Theorem C16_relabelled_trunk_regions_with_ties :
